@@ -587,6 +587,13 @@ fn onto_case(rng: &mut Rng, prop: &str, tier: &str, idx: usize) -> Case {
     if tier == "thorough" && idx < SMALL_SCOPE {
         return small_scope_case(prop, idx);
     }
+    if prop == "C01" && idx == 5 {
+        // more than 65 535 terms: links, ancestors and children of terms inserted late
+        let mut c = Case::new("big-arena-links");
+        c.op(format!("bigarena 70000 {}", rng.next()));
+        c.nontrivial = true;
+        return c;
+    }
     if prop == "C02" && idx == 5 {
         // 70 000 terms, one record of every kind directly annotated to each of them (record term
         // lists beyond 65 535 entries), binary round trip and clone: implementation against the
@@ -722,6 +729,13 @@ fn onto_case(rng: &mut Rng, prop: &str, tier: &str, idx: usize) -> Case {
         "C02" => {
             c.op("oracle inherit 0".to_string());
             c.nontrivial = inh > 0;
+            if with_roots && rng.chance(1, 3) {
+                // construction path `from_bytes(as_bytes())` of the ontology just built
+                c.op("roundtrip 0 9".to_string());
+                c.op("dump 9".to_string());
+                c.op("oracle inherit 9".to_string());
+                c.stat("binary_round_trip_path", 1);
+            }
             if rng.chance(1, 6) {
                 sub_path(rng, &f, &mut c, "inherit");
             }
@@ -769,7 +783,26 @@ fn ids_csv(v: &[u32]) -> String {
     ids(v.iter().copied())
 }
 
-fn c15(rng: &mut Rng, _idx: usize) -> Case {
+fn c15(rng: &mut Rng, idx: usize) -> Case {
+    if idx % 600 == 7 {
+        // more than 65 535 distinct records of a kind through annotate_*: every call succeeds (the
+        // limit belongs to the information-content calculation, judged by predicate there)
+        let mut c = Case::new("history-many-records");
+        c.op("new".to_string());
+        for (id, nm) in [(1u32, "All"), (118, "Phenotypic abnormality"), (2, "x")] {
+            c.op(format!("term {} {}", id, name(nm)));
+        }
+        c.op("complete".to_string());
+        c.op("parent 1 118".to_string());
+        c.op("parent 118 2".to_string());
+        c.op("connect".to_string());
+        let k = (idx / 600) % 3;
+        c.op(format!("bulkann {} 1 {} {} 2", KINDS[k], *rng.pick(&[65_536u32, 65_537, 70_000]), name("many")));
+        c.op(format!("ann {} 9 {} 424242", KINDS[k], name("absent term")));
+        c.op("icover".to_string());
+        c.nontrivial = true;
+        return c;
+    }
     let mut c = Case::new("history");
     let with_roots = rng.chance(1, 2);
     let max_terms = *rng.pick(&[3usize, 6, 12, 20]);
